@@ -178,24 +178,35 @@ Section SaveIO.
       | x => x
       end.
 
+  (* PdoMap.save in three phases (the history runner needs to know how far a failing save got):
+     1. invalidate, parameters, count := 0 (or the fixed-count workaround) -> the map, possibly filled;
+     2. entries, count := n (after which the code calls _update_data_size);
+     3. re-enable and subscribe, only if enabled. *)
+  Definition save_prefix (com mp : Z) (c : cfg) (cob : Z) : M (list entry) :=
+    bind (sdo_set (com_has od 1) 32 com 1 (Z.lor (Z.lor cob PDO_NOT_VALID) (rtr_bit c))) (fun _ =>
+    bind (set_opt (com_has od 2) 8 com 2 (c_tt c)) (fun _ =>
+    bind (set_opt (com_has od 3) 16 com 3 (c_inhibit c)) (fun _ =>
+    bind (set_opt (com_has od 5) 16 com 5 (c_event c)) (fun _ =>
+    bind (set_opt (com_has od 6) 8 com 6 (c_sync c)) (fun _ =>
+    zero_count mp (c_map c)))))).
+
+  Definition save_entries (mp : Z) (m1 : list entry) : M unit :=
+    bind (write_entries mp 1 m1) (fun _ => set_count mp (zlen m1)).
+
+  Definition save_validate (com : Z) (c1 : cfg) (cob : Z) (subs : list Z) : M (cfg * list Z) :=
+    if c_enabled c1 then
+      bind (sdo_set (com_has od 1) 32 com 1 (Z.lor cob (rtr_bit c1))) (fun _ =>
+      ret (c1, subscribe c1 subs))
+    else ret (c1, subs).
+
   (* PdoMap.save; result: the map object afterwards and the subscriptions of its callback *)
   Definition save_io (com mp : Z) (c : cfg) (subs : list Z) : M (cfg * list Z) :=
     match c_cob c with
     | None => ret (c, subs)
     | Some cob =>
-        bind (sdo_set (com_has od 1) 32 com 1 (Z.lor (Z.lor cob PDO_NOT_VALID) (rtr_bit c))) (fun _ =>
-        bind (set_opt (com_has od 2) 8 com 2 (c_tt c)) (fun _ =>
-        bind (set_opt (com_has od 3) 16 com 3 (c_inhibit c)) (fun _ =>
-        bind (set_opt (com_has od 5) 16 com 5 (c_event c)) (fun _ =>
-        bind (set_opt (com_has od 6) 8 com 6 (c_sync c)) (fun _ =>
-        bind (zero_count mp (c_map c)) (fun m1 =>
-        bind (write_entries mp 1 m1) (fun _ =>
-        bind (set_count mp (zlen m1)) (fun _ =>
-        let c1 := with_map c m1 in
-        if c_enabled c then
-          bind (sdo_set (com_has od 1) 32 com 1 (Z.lor cob (rtr_bit c))) (fun _ =>
-          ret (c1, subscribe c1 subs))
-        else ret (c1, subs)))))))))
+        bind (save_prefix com mp c cob) (fun m1 =>
+        bind (save_entries mp m1) (fun _ =>
+        save_validate com (with_map c m1) cob subs))
     end.
 End SaveIO.
 
@@ -290,6 +301,284 @@ Definition v_regs (r : regs) (com mp : Z) : val :=
 Definition v_res (r : res (cfg * list Z)) : val :=
   res_val (fun p => v_cfg (fst p) (snd p)) r.
 
+(* ------------------------------------------------------------------ histories on one Network *)
+(* Several node objects (each behind its own device) and several maps share one Network.  A PdoMap
+   object carries state from one operation to the next: its attributes, its map with the offsets given
+   by add_variable, PdoMap.length, len(PdoMap.data) and the COB-IDs its callback is registered for.
+   The device may be reset / reconfigured between operations and may abort the k-th download of an
+   operation (0800 0022h) or every upload of one register (0800 0020h). *)
+Definition AB_DEVICE : Z := 0x08000020.
+
+Record pmap := mkPm {
+  p_cfg : cfg;
+  p_offs : list (option Z);      (* PdoVariable.offset of each mapped variable (None for _fill_map dummies) *)
+  p_len : Z;                     (* PdoMap.length *)
+  p_dlen : Z;                    (* len(PdoMap.data) *)
+  p_subs : list Z                (* CAN ids for which on_message is subscribed on the network *)
+}.
+
+Definition fresh_pmap : pmap := mkPm fresh_cfg [] 0 0 [].
+
+(* _update_data_size: int(math.ceil(length / 8.0)) *)
+Definition data_size (len : Z) : Z := (len + 7) / 8.
+
+(* clear(): map and length only *)
+Definition pm_clear (p : pmap) : pmap :=
+  mkPm (with_map (p_cfg p) []) [] 0 (p_dlen p) (p_subs p).
+
+(* add_variable with its bookkeeping (the data buffer is resized even when the object is not found) *)
+Definition pm_add (objs : list (Z * objdesc)) (p : pmap) (idx sub : Z) (len : option Z) : pmap :=
+  match od_lookup objs idx sub with
+  | Some b =>
+      let l := match len with Some l => l | None => b end in
+      mkPm (with_map (p_cfg p) (c_map (p_cfg p) ++ [(idx, sub, l)])) (p_offs p ++ [Some (p_len p)])
+           (p_len p + l) (data_size (p_len p + l)) (p_subs p)
+  | None => mkPm (p_cfg p) (p_offs p) (p_len p) (data_size (p_len p)) (p_subs p)
+  end.
+
+Fixpoint pm_adds (objs : list (Z * objdesc)) (p : pmap) (adds : list (Z * Z * option Z)) : pmap :=
+  match adds with
+  | [] => p
+  | (i, s, l) :: t => pm_adds objs (pm_add objs p i s l) t
+  end.
+
+(* attributes assigned by the user *)
+Definition pm_set (p : pmap) (a : cfg) : pmap :=
+  mkPm (mkCfg (c_cob a) (c_enabled a) (c_rtr a) (c_tt a) (c_inhibit a) (c_event a) (c_sync a) (c_map (p_cfg p)))
+       (p_offs p) (p_len p) (p_dlen p) (p_subs p).
+
+(* the device with the k-th download of this operation aborted (k = 0: none) *)
+Definition inj_write (d : device) (fail : Z) (st : lstate * Z) (i s v : Z) : (lstate * Z) * option Z :=
+  let '(ls, n) := st in
+  if n + 1 =? fail then
+    let '(r, lg) := ls in (((r, lg ++ [((i, s, v), Some AB_STATE)]), n + 1), Some AB_STATE)
+  else
+    let '(ls', a) := log_write d ls i s v in ((ls', n + 1), a).
+
+Definition inj_ul (st : lstate * Z) (i s : Z) : res Z := log_ul (fst st) i s.
+
+(* save() on a map object; returns the object afterwards, the device afterwards, the log of this
+   operation and the outcome.  The object keeps a filled map once phase 1 is through and gets its data
+   buffer resized once phase 2 is through, whatever happens later. *)
+Definition pm_save (od : oddesc) (d : device) (fail : Z) (com mp : Z) (p : pmap) (r : regs)
+  : pmap * regs * list (write * option Z) * res unit :=
+  let c := p_cfg p in
+  match c_cob c with
+  | None => (p, r, [], Ok tt)
+  | Some cob =>
+      let '(st1, x1) := save_prefix (inj_write d fail) inj_ul od com mp c cob ((r, []), 0) in
+      match x1 with
+      | Ok m1 =>
+          let c1 := with_map c m1 in
+          let offs1 := p_offs p ++ repeat None (length m1 - length (c_map c)) in
+          let p1 := mkPm c1 offs1 (p_len p) (p_dlen p) (p_subs p) in
+          let '(st2, x2) := save_entries (inj_write d fail) od mp m1 st1 in
+          match x2 with
+          | Ok _ =>
+              let p2 := mkPm c1 offs1 (p_len p) (data_size (p_len p)) (p_subs p) in
+              let '(st3, x3) := save_validate (inj_write d fail) od com c1 cob (p_subs p) st2 in
+              match x3 with
+              | Ok (c3, subs3) =>
+                  (mkPm c3 offs1 (p_len p) (data_size (p_len p)) subs3, fst (fst st3), snd (fst st3), Ok tt)
+              | Err k => (p2, fst (fst st3), snd (fst st3), Err k)
+              | Abort a => (p2, fst (fst st3), snd (fst st3), Abort a)
+              end
+          | Err k => (p1, fst (fst st2), snd (fst st2), Err k)
+          | Abort a => (p1, fst (fst st2), snd (fst st2), Abort a)
+          end
+      | Err k => (p, fst (fst st1), snd (fst st1), Err k)
+      | Abort a => (p, fst (fst st1), snd (fst st1), Abort a)
+      end
+  end.
+
+(* read() statement by statement, keeping what was assigned before an exception *)
+Section ReadPartial.
+  Context (get : Z -> Z -> res (option Z)) (objs : list (Z * objdesc)).
+
+  Definition set_comm (p : pmap) (cob_id : Z) : pmap :=
+    let c := p_cfg p in
+    mkPm (mkCfg (Some (Z.land cob_id 0x1FFFFFFF)) (Z.land cob_id PDO_NOT_VALID =? 0)
+                (Z.land cob_id RTR_NOT_ALLOWED =? 0) (c_tt c) (c_inhibit c) (c_event c) (c_sync c) (c_map c))
+         (p_offs p) (p_len p) (p_dlen p) (p_subs p).
+
+  Definition set_tt (p : pmap) (tt : option Z) : pmap :=
+    let c := p_cfg p in
+    mkPm (mkCfg (c_cob c) (c_enabled c) (c_rtr c) tt (c_inhibit c) (c_event c) (c_sync c) (c_map c))
+         (p_offs p) (p_len p) (p_dlen p) (p_subs p).
+
+  Definition set_timers (p : pmap) (inh ev sy : option Z) : pmap :=
+    let c := p_cfg p in
+    mkPm (mkCfg (c_cob c) (c_enabled c) (c_rtr c) (c_tt c) inh ev sy (c_map c))
+         (p_offs p) (p_len p) (p_dlen p) (p_subs p).
+
+  Fixpoint read_entries_p (mp k : Z) (fuel : nat) (p : pmap) : pmap * res unit :=
+    match fuel with
+    | O => (p, Ok tt)
+    | S f =>
+        match rbind (get mp k) need_int with
+        | Ok v =>
+            let index := Z.shiftr v 16 in
+            let subindex := Z.land (Z.shiftr v 8) 0xFF in
+            let size := Z.land v 0x7F in
+            read_entries_p mp (k + 1) f
+              (if (index =? 0) || (size =? 0) then p else pm_add objs p index subindex (Some size))
+        | Err e => (p, Err e)
+        | Abort a => (p, Abort a)
+        end
+    end.
+
+  Definition read_partial (com mp : Z) (p : pmap) : pmap * res unit :=
+    match rbind (get com 1) need_int with
+    | Err e => (p, Err e)
+    | Abort a => (p, Abort a)
+    | Ok cob_id =>
+        let p1 := set_comm p cob_id in
+        match get com 2 with
+        | Err e => (p1, Err e)
+        | Abort a => (p1, Abort a)
+        | Ok None => (set_tt p1 None, Err E_TYPE)
+        | Ok (Some ty) =>
+            let p2 := set_tt p1 (Some ty) in
+            let c2 := p_cfg p2 in
+            let step (k : Z) (prev : option Z) := if ty >=? 254 then read_opt get com k prev else Ok prev in
+            match step 3 (c_inhibit c2) with
+            | Err e => (p2, Err e)
+            | Abort a => (p2, Abort a)
+            | Ok inh =>
+                match step 5 (c_event c2) with
+                | Err e => (set_timers p2 inh (c_event c2) (c_sync c2), Err e)
+                | Abort a => (set_timers p2 inh (c_event c2) (c_sync c2), Abort a)
+                | Ok ev =>
+                    match step 6 (c_sync c2) with
+                    | Err e => (set_timers p2 inh ev (c_sync c2), Err e)
+                    | Abort a => (set_timers p2 inh ev (c_sync c2), Abort a)
+                    | Ok sy =>
+                        let p3 := pm_clear (set_timers p2 inh ev sy) in
+                        match rbind (get mp 0) need_int with
+                        | Err e => (p3, Err e)
+                        | Abort a => (p3, Abort a)
+                        | Ok n =>
+                            let '(p4, x) := read_entries_p mp 1 (Z.to_nat n) p3 in
+                            match x with
+                            | Ok _ => (mkPm (p_cfg p4) (p_offs p4) (p_len p4) (p_dlen p4)
+                                            (subscribe (p_cfg p4) (p_subs p4)), Ok tt)
+                            | e => (p4, e)
+                            end
+                        end
+                    end
+                end
+            end
+        end
+    end.
+End ReadPartial.
+
+(* SDO source with every upload of register (fi, fs) aborted; the dictionary lookup comes first *)
+Definition inj_get (od : oddesc) (com mp : Z) (r : regs) (fi fs : Z) (i s : Z) : res (option Z) :=
+  match sdo_get od com mp r i s with
+  | Err k => Err k
+  | x => if (i =? fi) && (s =? fs) then Abort AB_DEVICE else x
+  end.
+
+Definition mapkey := (Z * bool * Z)%type.          (* node number in the case, TPDO?, PDO number *)
+
+Definition key_eqb (a b : mapkey) : bool :=
+  let '(n1, t1, k1) := a in let '(n2, t2, k2) := b in (n1 =? n2) && Bool.eqb t1 t2 && (k1 =? k2).
+
+Fixpoint maps_get (ms : list (mapkey * pmap)) (k : mapkey) : pmap :=
+  match ms with
+  | [] => fresh_pmap
+  | (k', p) :: t => if key_eqb k k' then p else maps_get t k
+  end.
+
+Fixpoint maps_set (ms : list (mapkey * pmap)) (k : mapkey) (p : pmap) : list (mapkey * pmap) :=
+  match ms with
+  | [] => []
+  | (k', q) :: t => if key_eqb k k' then (k', p) :: t else (k', q) :: maps_set t k p
+  end.
+
+Fixpoint nregs_get (rs : list regs) (n : nat) : regs :=
+  match rs, n with
+  | r :: _, O => r
+  | _ :: t, S m => nregs_get t m
+  | [], _ => []
+  end.
+
+Fixpoint nregs_set (rs : list regs) (n : nat) (r : regs) : list regs :=
+  match rs, n with
+  | _ :: t, O => r :: t
+  | x :: t, S m => x :: nregs_set t m r
+  | [], _ => []
+  end.
+
+Inductive hop :=
+| HSet (k : mapkey) (attrs : cfg)                       (* assign the seven attributes *)
+| HMap (k : mapkey) (adds : list (Z * Z * option Z))    (* clear(); add_variable(...) ... *)
+| HSave (k : mapkey) (fail : Z)                         (* save(), k-th download aborted (0 = none) *)
+| HRead (k : mapkey) (fi fs : Z)                        (* read(), uploads of (fi, fs) aborted ((0,0) = none) *)
+| HReset (node : Z) (r : regs).                         (* the device comes back with these registers *)
+
+Fixpoint zinsert (x : Z) (l : list Z) : list Z :=
+  match l with
+  | [] => [x]
+  | y :: t => if x <=? y then x :: l else y :: zinsert x t
+  end.
+Definition zsort (l : list Z) : list Z := fold_right zinsert [] l.
+
+Definition v_layout (p : pmap) : val :=
+  VL [VZ (p_dlen p); VZ (p_len p); VL (map (vopt VZ) (p_offs p))].
+
+(* the subscription table of the whole network: per map the sorted CAN ids of its callback, then the
+   number of callbacks that are not PDO maps (per node: SDO response, heartbeat, EMCY, NMT command; once: LSS) *)
+Definition v_table (ms : list (mapkey * pmap)) (nnodes : Z) : val :=
+  VL (map (fun kp => VL (map VZ (zsort (p_subs (snd kp))))) ms ++ [VZ (4 * nnodes + 1)]).
+
+Definition v_unit (r : res unit) : val := res_val (fun _ => VNone) r.
+
+Definition key_indices (k : mapkey) : Z * Z :=
+  let '(_, tp, n) := k in (com_index tp n, map_index tp n).
+Definition key_node (k : mapkey) : nat := let '(nd, _, _) := k in Z.to_nat nd.
+
+Fixpoint run_history (od : oddesc) (d : device) (ms : list (mapkey * pmap)) (rs : list regs)
+                     (ops : list hop) : list val :=
+  let nn := Z.of_nat (length rs) in
+  match ops with
+  | [] => []
+  | op :: rest =>
+      match op with
+      | HSet k a =>
+          let p := pm_set (maps_get ms k) a in
+          let ms' := maps_set ms k p in
+          VL [VNone; VL []; v_cfg (p_cfg p) (p_subs p); v_layout p; v_table ms' nn] :: run_history od d ms' rs rest
+      | HMap k adds =>
+          let p := pm_adds (o_objs od) (pm_clear (maps_get ms k)) adds in
+          let ms' := maps_set ms k p in
+          VL [VNone; VL []; v_cfg (p_cfg p) (p_subs p); v_layout p; v_table ms' nn] :: run_history od d ms' rs rest
+      | HSave k fail =>
+          let '(com, mp) := key_indices k in
+          let '(p, r', lg, x) := pm_save od d fail com mp (maps_get ms k) (nregs_get rs (key_node k)) in
+          let ms' := maps_set ms k p in
+          VL [v_unit x; v_log lg; v_cfg (p_cfg p) (p_subs p); v_layout p; v_table ms' nn]
+            :: run_history od d ms' (nregs_set rs (key_node k) r') rest
+      | HRead k fi fs =>
+          let '(com, mp) := key_indices k in
+          let p0 := maps_get ms k in
+          let get := inj_get od com mp (nregs_get rs (key_node k)) fi fs in
+          let '(p, x) := read_partial get (o_objs od) com mp p0 in
+          (* on success the statement-by-statement version must agree with read_cfg (the function of the theorems) *)
+          let agree := match read_cfg get (o_objs od) com mp (p_cfg p0) (p_subs p0), x with
+                       | Ok (c', s'), Ok _ => val_eqb (v_cfg c' s') (v_cfg (p_cfg p) (p_subs p)) && list_Z_eqb s' (p_subs p)
+                       | Ok _, _ => false
+                       | _, Ok _ => false
+                       | _, _ => true
+                       end in
+          let ms' := maps_set ms k p in
+          VL [v_unit x; VBool agree; v_cfg (p_cfg p) (p_subs p); v_layout p; v_table ms' nn]
+            :: run_history od d ms' rs rest
+      | HReset nd r =>
+          VL [VNone; VL []; VNone; VNone; v_table ms nn] :: run_history od d ms (nregs_set rs (Z.to_nat nd) r) rest
+      end
+  end.
+
 Inductive pdocfg_case :=
 (* user sets the attributes of a fresh map (pre, with empty map), adds variables, saves against the
    device; a second fresh node reads back by SDO *)
@@ -302,7 +591,10 @@ Inductive pdocfg_case :=
 | CIndices (tpdo : bool) (n node_id : Z)
 (* RemoteNode.load_configuration on a dictionary with RPDO n and TPDO n: pdo.read(from_od=True) of all
    maps (receive maps first), then pdo.save() of all maps; no other object carries a value *)
-| CLoad (n : Z) (od : oddesc) (vals : odvals) (d : device) (r0 : regs).
+| CLoad (n : Z) (od : oddesc) (vals : odvals) (d : device) (r0 : regs)
+(* a history of operations on the maps `keys` (all fresh at the start) of the node objects of one Network,
+   node i behind device d with registers rs[i] *)
+| CHistory (od : oddesc) (d : device) (keys : list mapkey) (rs : list regs) (ops : list hop).
 
 Definition save_and_readback (od : oddesc) (d : device) (r0 : regs) (com mp : Z) (c : cfg) (subs : list Z) : val :=
   let '((r1, lg), sr) := save_io (log_write d) log_ul od com mp c subs (r0, []) in
@@ -357,4 +649,5 @@ Definition run_pdocfg (c : pdocfg_case) : val :=
   | CIndices tpdo n node_id =>
       VL [VZ (com_index tpdo n); VZ (map_index tpdo n); vopt VZ (predefined_cob tpdo n node_id)]
   | CLoad n od vals d r0 => load_configuration n od vals d r0
+  | CHistory od d keys rs ops => VL (run_history od d (map (fun k => (k, fresh_pmap)) keys) rs ops)
   end.
